@@ -373,6 +373,12 @@ RANDOM_CFGS = [
     ("euclidean", "simple", 16, 16, 32, 0, 0, 24, 40, 3),
     ("cosine", "simple", 2, 3, 3, 2, 2, 12, 8, 1),
     ("manhattan", "heuristic-extend", 1, 1, 2, 1, 1, 10, 6, 2),
+    # only M is given (index.HnswM alone): the budgets are the derived defaults mMax = M, mMax0 = 2M; collections of
+    # up to 2M+1 = 65 items, searched with k = n (negative MMax marks "derived", the 11th field is the history length)
+    ("euclidean", "simple", 32, -32, -64, 0, 0, 70, 70, 3, 70),
+    ("manhattan", "heuristic", 3, -3, -6, 0, 0, 12, 9, 2, 12),
+    # the remaining option of the heuristic selection: keepPruned = false
+    ("euclidean", "heuristic-nokeep", 2, 2, 4, 4, 4, 16, 10, 2),
 ]
 
 
@@ -381,9 +387,14 @@ def random_phase(ctx, part):
     n, maxlen = (250, 30) if quick else (2500, 60)
     d = ctx.specdir()
     total = 0
-    for i, (m, a, M, mm, mm0, ef, efc, np_, nids, maxlvl) in enumerate(RANDOM_CFGS):
+    for i, rc in enumerate(RANDOM_CFGS):
+        (m, a, M, mm, mm0, ef, efc, np_, nids, maxlvl) = rc[:10]
+        n, maxlen = (250, 30) if quick else (2500, 60)
+        if len(rc) > 10:
+            maxlen = rc[10]
+            n = n // 2
         cfgp = ctx.path("rcfg-%d.json" % i)
-        json.dump({"index": {"metric": m, "algo": a, "M": M, "MMax": mm, "MMax0": mm0, "ef": ef, "efc": efc},
+        json.dump({"index": {"metric": m, "algo": a, "M": M, "MMax": abs(mm), "MMax0": abs(mm0), "ef": ef, "efc": efc, "derived": mm < 0},
                    "np": np_, "dim": 4, "keys": ["a", "b"], "vals": 4, "ks": [1, 3, nids], "full": "some",
                    "nids": nids, "maxlvl": maxlvl, "ids": (ctx.seed + i) % 4}, open(cfgp, "w"))
         trace = ctx.path("rtrace-%d.ndjson" % i)
